@@ -33,9 +33,10 @@ Core Lean only (compiled into the driver).  Quirks kept:
 * an empty webhook method reads as POST; `headers == [""]` reads as no headers;
 * `LOGGER.error` / `LOGGER.critical` do not stop the library: any record ≥ ERROR counts as
   an error here, as does any exception.
-* a sub-flow's uuid travels through the container (`record_flow_uuid(name, obj_id)`; the action
-  itself is created without uuid and gets the recorded one at `assign_global_uuids`):
-  `ofFields` reports the recorded uuid.
+* group and sub-flow uuids travel through the container's dictionary (`_get_row_node` records
+  `(name, obj_id)`; `record_global_uuids` records what the reference itself carries;
+  `assign_global_uuids` overwrites the reference with the dictionary's uuid, inventing one where
+  none was recorded): `ofFields` reports the uuid recorded for the name (`none` = invented).
 
 Numbers (`transfer_airtime.amounts`): an `int` is printed by `str` and read by `int()`
 (`Row.printInt` / `Row.pyInt`, ASCII digits; CPython's 4300-digit limit of `str(int)` is not
